@@ -48,6 +48,7 @@ func runC15(c *an.Ctx) {
 	ruleS9(c)
 	ruleS10(c)
 	ruleS11(c)
+	ruleS13(c)
 	ruleMemoKey(c, "S12", "martian/syntax")
 }
 
